@@ -84,16 +84,18 @@ def windowsAdaptive (gpow : K → K) (a m : Nat) (Y : Nat → K) (bOf : Nat → 
   let ar : Nat → Nat := fun k => if k = 0 ∨ m ≤ k then 1 else (adaptiveAt gpow a Y k).2
   { aL := al, aR := ar, bL := fun k => bOf (al k), bR := fun k => bOf (ar k) }
 
-/-- is the un-floored share of `adaptiveAt` an exact integer (where `int()` is discontinuous)? -/
-def adaptiveExactInt (gpow : K → K) (a : Nat) (Y : Nat → K) (k : Nat) : Bool :=
+/-- the un-floored, clamped shares `(min (max a_l 1) a, min (max a_r 1) a)` that `adaptiveAt`
+hands to `int()` (reported to the harness: where a share is within rounding distance of an
+integer, `int()` of the float computation may legitimately land on either side) -/
+def adaptiveShares (gpow : K → K) (a : Nat) (Y : Nat → K) (k : Nat) : Option (K × K) :=
   let nom := absK (Y (k + 1) - Y k)
   let denom := absK (Y k - Y (k - 1))
-  if nom = 0 ∨ denom = 0 then false
+  if nom = 0 ∨ denom = 0 then none
   else
     let gamma := gpow (nom / denom)
     let al := gamma * (a : K) / (1 + gamma)
     let ar := (a : K) / (1 + gamma)
-    (List.range (a + 1)).any (fun j => decide (al = (j : K)) || decide (ar = (j : K)))
+    some (minK (maxK al 1) (a : K), minK (maxK ar 1) (a : K))
 
 /-! ### transition values -/
 
